@@ -1,5 +1,5 @@
-CONSTANTS Alphabet <- AGen
- MaxLen = 4
+CONSTANTS Families = {"gen"}
+ Family <- QuickFamily
  MaxSects = 2
  MaxDepth = 2
  Fixed = {}
